@@ -101,7 +101,7 @@ func VP_C15_roundtrip() {
 		vpAssume(v >= -100000 && v <= 100000)
 		return float64(v)
 	}
-	switch vpChoose("field", vpParam("FIELDS", 14)) {
+	switch vpChoose("field", vpParam("FIELDS", 15)) {
 	case 0:
 		m.Glyphs["f"].WidthX = float64(vpInt16("wx"))
 	case 1:
@@ -136,6 +136,9 @@ func VP_C15_roundtrip() {
 		m.Kern = nil
 		m.Glyphs["space"] = &GlyphInfo{WidthX: float64(vpInt16("spacewidth"))}
 		m.Encoding[32] = "space"
+	case 13:
+		// a kerning pair may name a glyph the font does not have
+		m.Kern = append([]*KernPair{{Left: "f", Right: "nosuchglyph", Adjust: funit.Int16(vpInt16("adjust"))}}, m.Kern...)
 	default:
 		m.Glyphs["f"].BBox.LLy = big("lly")
 		m.Glyphs["f"].BBox.URx = big("urx")
@@ -205,6 +208,15 @@ func vpIndependentAFM(layout int) ([]byte, []byte) {
 		lines[2], lines[14] = lines[14], lines[2]
 		lines[6], lines[16] = lines[16], lines[6]
 	}
+	if layout == 3 {
+		// the kerning section ahead of the character metrics
+		var moved []string
+		moved = append(moved, lines[:18]...)
+		moved = append(moved, lines[23:29]...)
+		moved = append(moved, lines[18:23]...)
+		moved = append(moved, lines[29:]...)
+		lines = moved
+	}
 	var text []byte
 	for i, l := range lines {
 		text = append(text, l...)
@@ -221,15 +233,19 @@ func vpIndependentAFM(layout int) ([]byte, []byte) {
 			digits = append(digits, d-'0')
 		}
 	}
+	if layout == 3 {
+		// digits are reported in the order of the standard layout (the kerning digit last)
+		digits = append(append(append([]byte{}, digits[:2]...), digits[3:]...), digits[2])
+	}
 	return text, digits
 }
 
-// C15 K2: the reader understands the data of an independently laid out file (three layouts,
+// C15 K2: the reader understands the data of an independently laid out file (four layouts,
 // seven symbolic digits), and for such an accepted input one write/read cycle preserves names and
 // texts and the (integral) numbers, and a second cycle changes nothing.
 func VP_C15_independent() {
 	vpUnwind(8000)
-	text, d := vpIndependentAFM(vpChoose("layout", 3))
+	text, d := vpIndependentAFM(vpChoose("layout", 4))
 	m, err := Read(&vpReader{data: text, faultAt: -1, name: "indie"})
 	vpAssert("independent-layout-accepted", err == nil && m != nil)
 	if err != nil || m == nil {
